@@ -8,7 +8,8 @@ import FxVerif.Model.Util
 * `tgt <hex>`: `fxtypes.ParseFxTarget(<text>, true)` as `SendToFxExecuted` calls it;
 * `cfg <total> <power>:<external address> …`, `last <n>`, `vote <oracle> <handlerPanics> <claim line>`: the attestation
   model (`Model/C03Attest.lean`) with `H` = SHA-256; the answer is the result kind, the last observed nonce, the hash of
-  the executed claim (if this vote made an attestation observed) and the attestation table of the nonce under vote. -/
+  the executed claim (if this vote made an attestation observed), the claim stored for `ExecuteClaim` and the attestation
+  table of the nonce under vote; `run <nonce> <handlerFails>`: `ExecuteClaim`. -/
 open FxVerif FxVerif.Util FxVerif.Model.C03
 
 def str (s : String) : Option Str := (unhex s).map (·.map Char.ofNat)
@@ -71,6 +72,12 @@ def attTable (s : AState String) (n : Nat) : String :=
   | [] => "-"
   | rs => ",".intercalate rs
 
+/-- the claim stored for `ExecuteClaim` under nonce `n`, by the first 16 hex digits of its hash -/
+def pendOf (s : AState String) (n : Nat) : String :=
+  match s.pending.lookup n with
+  | some c => ((hashHex c.path).take 16).toString
+  | none => "-"
+
 def cfgEntry (s : String) : Option (Nat × Str) :=
   match s.splitOn ":" with
   | [p, a] => do pure (← p.toNat?, ← str a)
@@ -101,7 +108,14 @@ def opLine (d : DState) : List String → Option (DState × String)
     let kind := match res with
       | .ok => "ok" | .logicCheck => "err:logic-check" | .nonContiguous => "err:non-contiguous" | .panic => "panic"
     let exec := if s'.executed.length > before then ((hashHex c.path).take 16).toString else "-"
-    pure ({ d with st := s' }, s!"{kind} last={s'.lastObserved} exec={exec} atts={attTable s' d.focus}")
+    pure ({ d with st := s' }, s!"{kind} last={s'.lastObserved} exec={exec} pend={pendOf s' d.focus} atts={attTable s' d.focus}")
+  | ["run", n, fails] => do
+    let n ← n.toNat?
+    let had := (d.st.pending.lookup n).isSome
+    let fails ← boolOf fails
+    let s' := execute d.st n fails
+    let kind := if !had then "none" else if fails then "err" else "ok"
+    pure ({ d with st := s' }, s!"{kind} pend={pendOf s' n} ran={s'.ran.length}")
   | ws => do
     let (c, chain, ck) ← parseClaim ws
     pure (d, answer c chain ck)
